@@ -114,6 +114,21 @@ CHECKS = {
         "aiohttp constants (no cookies for IP hosts unless unsafe, no public-suffix list, trailing-dot Domain = host-only, shared "
         "('','') bucket excluded); one cookie per name returned, ordering not judged; well-formed Set-Cookie spelling variants only; "
         "yarl and http.cookies are black boxes; " + TRUST),
+ "C17": dict(
+   technique="An explicit TLA+ reference machine of the redirect loop (Redirects.tla) is model-checked by TLC (exhaustive for chains "
+             "<= 2, exhaustive for the cookie slice, -simulate for chains <= 3); every TLC behaviour (simulated and "
+             "transition-covering) plus seeded random longer chains is executed against a real ClientSession on in-memory "
+             "transports and the recorded per-origin requests, outcome, history and connector residue are decided by TLC against "
+             "the reference (RedirectsTrace.tla)",
+   text="Bounded exhaustive check of the reference (NoCredentialOffOrigin, CredentialKept, Terminates, HistoryOrdered, "
+        "MethodBodyTable) with reference-equality trace validation of the implementation: which origin received which method, "
+        "body, Authorization / Cookie / Proxy-Authorization, how many requests were made, how the call ended, history order and "
+        "released connections.",
+   design_ref="DESIGN.md §4 C17",
+   note="origins are in-memory peers behind a BaseConnector subclass (no DNS/TLS/proxies; https differs from http in the "
+        "connection key, URL and cookie handling only); trust_env/netrc/middlewares at defaults; yarl decides which Locations are "
+        "malformed; 301/302+POST->GET taken as the documented table; jar matching is a small RFC 6265 subset; chains of up to 9 "
+        "requests over 3-4 origins; " + TRUST),
 }
 
 NA_REASON = "check not built yet (in progress)"
